@@ -19,6 +19,7 @@ import (
 	"strings"
 	"testing"
 
+	"github.com/cespare/xxhash"
 	enc "github.com/named-data/ndnd/std/encoding"
 )
 
@@ -230,6 +231,83 @@ func (e *emitter) apair(shape string, full enc.Name) {
 		return o + " " + b01(hok) + " " + nameStr(a) + " " + nameStr(b)
 	})
 	fmt.Fprintf(e.w, "APAIR %s %s %s\n", shape, nameStr(full), obs)
+}
+
+// recHash is a hash.Hash that records every byte written to it: Component.HashInto takes the hasher as an argument, so
+// the exact byte stream the implementation feeds can be observed without any hook.
+type recHash struct{ buf []byte }
+
+func (r *recHash) Write(p []byte) (int, error) { r.buf = append(r.buf, p...); return len(p), nil }
+func (r *recHash) Sum(b []byte) []byte         { return b }
+func (r *recHash) Reset()                      { r.buf = r.buf[:0] }
+func (r *recHash) Size() int                   { return 8 }
+func (r *recHash) BlockSize() int              { return 1 }
+
+func fillVal(l int, seed int) []byte {
+	v := make([]byte, l)
+	for i := range v {
+		v[i] = byte(seed + i)
+	}
+	return v
+}
+
+// hin: the byte stream HashInto feeds for one component.  spec = x:<hex> (explicit value) or f:<len>:<seed> (value byte
+// i = seed+i mod 256, for lengths too large to print).  Observation: stream length, the stream (whole if <= 70100 bytes,
+// else its first 64 bytes), and whether the stream ends with the value.
+func (e *emitter) hin(t uint64, spec string) {
+	var v []byte
+	f := strings.Split(spec, ":")
+	switch {
+	case len(f) == 2 && f[0] == "x":
+		v, _ = hex.DecodeString(f[1])
+	case len(f) == 3 && f[0] == "f":
+		l, _ := strconv.Atoi(f[1])
+		sd, _ := strconv.Atoi(f[2])
+		v = fillVal(l, sd)
+	default:
+		fmt.Fprintf(e.w, "BADINPUT HIN\n")
+		return
+	}
+	e.count("HIN")
+	obs := guard(func() string {
+		r := &recHash{}
+		enc.Component{Typ: enc.TLNum(t), Val: v}.HashInto(r)
+		head := r.buf
+		if len(head) > 70100 {
+			head = head[:64]
+		}
+		return fmt.Sprintf("%d %s %s", len(r.buf), hx(head), b01(bytes.HasSuffix(r.buf, v)))
+	})
+	fmt.Fprintf(e.w, "HIN %d %s %s\n", t, spec, obs)
+}
+
+// hname: the concatenated HashInto streams of a name's components, and whether Name.Hash / PrefixHash / Component.Hash
+// are xxhash of exactly these streams
+func (e *emitter) hname(n enc.Name) {
+	e.count("HNAME")
+	obs := guard(func() string {
+		r := &recHash{}
+		ok := true
+		ph := n.PrefixHash()
+		if len(ph) != len(n)+1 || ph[0] != xxhash.Sum64(nil) {
+			ok = false
+		}
+		for i, c := range n {
+			before := len(r.buf)
+			c.HashInto(r)
+			if c.Hash() != xxhash.Sum64(r.buf[before:]) {
+				ok = false
+			}
+			if i+1 < len(ph) && ph[i+1] != xxhash.Sum64(r.buf) {
+				ok = false
+			}
+		}
+		if n.Hash() != xxhash.Sum64(r.buf) {
+			ok = false
+		}
+		return hx(r.buf) + " " + b01(ok)
+	})
+	fmt.Fprintf(e.w, "HNAME %s %s\n", nameStr(n), obs)
 }
 
 func (e *emitter) pair(a, b enc.Name) {
@@ -500,6 +578,14 @@ func (e *emitter) reexec(line string) bool {
 		e.compFromBytes(unhx(f[1]))
 	case "HASH":
 		e.hash(parseName(f[1]))
+	case "HIN":
+		t, err := strconv.ParseUint(f[1], 10, 64)
+		if err != nil {
+			panic(err)
+		}
+		e.hin(t, f[2])
+	case "HNAME":
+		e.hname(parseName(f[1]))
 	case "STR":
 		e.str(parseName(f[1]))
 	case "RT":
@@ -901,6 +987,23 @@ func runSweeps(e *emitter, g *gen, thorough bool) {
 		e.pparse("/" + string([]byte{byte(b)}) + "a>")
 		e.cpparse("<a" + string([]byte{byte(b)}))
 	}
+	// hash-input layout: exact bytes fed by HashInto, every boundary value length and type
+	for _, t := range []uint64{0, 1, 8, 9, 50, 252, 253, 65535, 65536, 1<<32 - 1, 1 << 32, 1<<32 + 1, 1<<48 - 1, 1 << 48, 1 << 63, 1<<64 - 1} {
+		for _, l := range []int{0, 1, 2, 255, 256, 257, 65535, 65536, 65537} {
+			e.hin(t, fmt.Sprintf("x:%s", hex.EncodeToString(fillVal(l, int(t%251)+l))))
+		}
+		e.hin(t, "f:70101:3")
+	}
+	for _, t := range []uint64{8, 9, 1 << 32} {
+		e.hin(t, "f:16777216:1")
+		e.hin(t, "f:16777217:250")
+	}
+	if thorough {
+		e.hin(8, "f:268435456:7") // 2^28
+	}
+	// the pair of the seeded layout defect: type T, length 65536+k vs type T+1, length k
+	e.hname(enc.Name{{Typ: 8, Val: []byte("c05")}, {Typ: 8, Val: fillVal(65536, 9)}})
+	e.hname(enc.Name{{Typ: 8, Val: []byte("c05")}, {Typ: 9, Val: []byte{}}, {Typ: 8, Val: fillVal(65528, 17)}})
 	// aliased operands: every pair of windows of one backing array (5 components, two of them equal), every shape
 	for _, full := range []enc.Name{
 		{{Typ: 8, Val: []byte("a")}, {Typ: 8, Val: []byte("b")}, {Typ: 8, Val: []byte("a")}, {Typ: 8, Val: []byte("b")}, {Typ: 50, Val: []byte{1}}},
@@ -1066,6 +1169,11 @@ func runGenerated(e *emitter, g *gen, ncases int, thorough bool) {
 			e.fromBytes(ins)
 		}
 		e.hash(a)
+		e.hname(a)
+		if len(b) > 0 {
+			c := b[g.r.Intn(len(b))]
+			e.hin(uint64(c.Typ), "x:"+hex.EncodeToString(c.Val))
+		}
 		// URI printing and the round trip
 		saved := g.huge
 		if !thorough || i%50 != 0 {
